@@ -174,6 +174,37 @@ fn gen_tails(_tier: Tier, emit: Emit) {
             emit(Case { family: "tail-returns", prog, shape: vec![] });
         }
     }
+    // names that are exported after the function was created (found at call time), for functions
+    // with 0..2 default arguments using 1..2 such names
+    for n_defaults in 0..=2usize {
+        for n_names in 1..=2usize {
+            for generator in [false, true] {
+                let mut args = vec![arg("n")];
+                for d in 0..n_defaults {
+                    args.push(argd(&format!("d{d}"), int(10 * (d as i64 + 1))));
+                }
+                let mut sum = callf("later_a", vec![id("n")]);
+                if n_names == 2 {
+                    sum = bin(Op::Add, sum, callf("later_b", vec![id("n")]));
+                }
+                for d in 0..n_defaults {
+                    sum = bin(Op::Add, sum, id(&format!("d{d}")));
+                }
+                let body = if generator { vec![x(E::Yield(sum.clone())), x(E::Yield(int(0)))] } else { vec![sum] };
+                let f = x(E::Func(Rc::new(FuncDef { args, variadic: false, body: blk(body), is_gen: generator, out_hint: None, inline: false })));
+                let call = |a: Vec<X>| if generator { method(callf("early", a), "to_tuple", vec![]) } else { callf("early", a) };
+                let prog = vec![
+                    x(E::Export(assign("early", f))),
+                    x(E::Export(assign("later_a", func_inline(&["v"], bin(Op::Mul, id("v"), int(2)))))),
+                    x(E::Export(assign("later_b", func_inline(&["v"], bin(Op::Add, id("v"), int(100)))))),
+                    print(call(vec![int(1)])),
+                    print(call(vec![int(2), int(5)])),
+                    print(s("end")),
+                ];
+                emit(Case { family: "bind", prog, shape: vec![] });
+            }
+        }
+    }
     // discarded values: the statement has no effect, what follows still runs
     let discarded: Vec<X> = vec![
         func_inline(&["v"], bin(Op::Add, id("v"), int(1))),
